@@ -97,6 +97,14 @@ impl Server {
 
 impl Drop for Server {
   fn drop(&mut self) {
+    // coverage runs (lib/coverage.sh): let the service end by itself so that its profile is written
+    if std::env::var("VHARNESS_TERM").is_ok() {
+      let _ = Command::new("kill").arg("-TERM").arg(self.child.id().to_string()).status();
+      let t0 = Instant::now();
+      while t0.elapsed() < Duration::from_secs(5) && self.alive() {
+        std::thread::sleep(Duration::from_millis(20));
+      }
+    }
     let _ = self.child.kill();
     let _ = self.child.wait();
   }
@@ -1588,6 +1596,51 @@ fn run_tck(cfg: &Cfg, rep: &mut Report, model: &mut Model, rng: &mut Rng, svc: &
       rep.hit("tck:well-formed list shape");
       if !matches!(strict_parse(&text), Ok(j) if j.get("data").is_some()) {
         rep.disagree(Kind::ImplVsSpec, "dto", "a well-formed TCK list is not answered in the data member", &format!("POST /tck/evaluate {}", good), &text, "{\"data\":…}");
+      }
+    }
+  }
+  // `isNil` on a list or on a component denotes null: the answer must be the answer to the same request with the
+  // null written as a simple value (which is compared with the DTO model below, `T::Null` is among the cases)
+  {
+    let nil_simple = json!({"simple": {"type": null, "text": null, "isNil": true}, "components": null, "list": null});
+    let pairs = vec![
+      (
+        "nil list",
+        json!({"simple": null, "components": null, "list": {"items": [], "isNil": true}}),
+        nil_simple.clone(),
+      ),
+      (
+        "nil list with items",
+        json!({"simple": null, "components": null, "list": {"items": [simple("xsd:decimal", "1")], "isNil": true}}),
+        nil_simple.clone(),
+      ),
+      (
+        "nil component",
+        json!({"simple": null, "list": null, "components": [{"name": "a", "value": null, "isNil": true}, {"name": "b", "value": simple("xsd:decimal", "2"), "isNil": false}]}),
+        json!({"simple": null, "list": null, "components": [{"name": "a", "value": nil_simple.clone(), "isNil": false}, {"name": "b", "value": simple("xsd:decimal", "2"), "isNil": false}]}),
+      ),
+      (
+        "nil list inside a list",
+        json!({"simple": null, "components": null, "list": {"items": [{"simple": null, "components": null, "list": {"items": [], "isNil": true}}, simple("xsd:string", "z")], "isNil": false}}),
+        json!({"simple": null, "components": null, "list": {"items": [nil_simple.clone(), simple("xsd:string", "z")], "isNil": false}}),
+      ),
+    ];
+    for (what, written, plain) in pairs {
+      let b1 = json!({"model": m.name, "invocable": "E", "input": [{"name": "x", "value": written}]}).to_string();
+      let b2 = json!({"model": m.name, "invocable": "E", "input": [{"name": "x", "value": plain}]}).to_string();
+      let (a1, a2) = match (http(server.port, "POST", "/tck/evaluate", js, b1.as_bytes()), http(server.port, "POST", "/tck/evaluate", js, b2.as_bytes())) {
+        (Ok(a1), Ok(a2)) => (a1, a2),
+        _ => {
+          rep.disagree(Kind::ImplVsSpec, "http", "the service stopped answering", &format!("POST /tck/evaluate {}", b1), "", "an answer");
+          return;
+        }
+      };
+      let (t1, t2) = (String::from_utf8_lossy(&a1.body).to_string(), String::from_utf8_lossy(&a2.body).to_string());
+      rep.case(&format!("tck:{}", what), true);
+      rep.hit(&format!("tck:nil:{}", what));
+      let data_ok = matches!(strict_parse(&t2), Ok(j) if j.get("data").is_some());
+      if t1 != t2 || !data_ok {
+        rep.disagree(Kind::ImplVsSpec, "dto", "a TCK value marked isNil is not treated as null", &format!("{}: POST /tck/evaluate {}", what, b1), &t1, &t2);
       }
     }
   }
